@@ -366,6 +366,7 @@ func run(f lib.Flags, res *lib.Result) {
 	for k, v := range mon.Distribution {
 		tie.Distribution[k] = v
 	}
+	runRemovePrefix(f, res)
 	res.Extra["triples"] = tnames
 	if len(allUnconfirmed) > 8 {
 		allUnconfirmed = allUnconfirmed[:8]
@@ -404,6 +405,9 @@ func replay(f lib.Flags) int {
 		return 2
 	}
 	b, _ := json.Marshal(in)
+	if in["kind"] == "rmprefix" {
+		return replayRemovePrefix(in)
+	}
 	var sid sessionID
 	if err := json.Unmarshal(b, &sid); err != nil || sessionKinds[sid.Kind] == nil {
 		fmt.Println("replay: unknown input", string(b))
